@@ -98,6 +98,60 @@ func runCase(line string) string {
 				return "err " + hx.Hex(hc.Seq())
 			}
 			return "ok " + hx.Hex(pt) + " " + hx.Hex(hc.Seq())
+		case "M":
+			// M id suite ver key mackey iv seq items   items = typ:eiv:data,...  (stateful pair, any version)
+			ver := hx.UnHex(f[3])
+			v16 := uint16(ver[0])<<8 | uint16(ver[1])
+			w := gmtls.VerifNewHalfConnV(v16, suiteID(f[2]), hx.UnHex(f[4]), hx.UnHex(f[5]), hx.UnHex(f[6]), false, hx.UnHex(f[7]))
+			r := gmtls.VerifNewHalfConnV(v16, suiteID(f[2]), hx.UnHex(f[4]), hx.UnHex(f[5]), hx.UnHex(f[6]), true, hx.UnHex(f[7]))
+			var recs, pts [][]byte
+			for j, it := range strings.Split(f[8], ",") {
+				p := strings.Split(it, ":")
+				typ := atoi(p[0])
+				eiv, data := hx.UnHex(p[1]), hx.UnHex(p[2])
+				m := len(data)
+				rec := []byte{byte(typ), ver[0], ver[1], byte(m >> 8), byte(m)}
+				rec = append(rec, eiv...)
+				rec = append(rec, data...)
+				out := w.Encrypt(rec, len(eiv))
+				recs = append(recs, out)
+				ok, pt, _, _ := r.Decrypt(out)
+				if !ok {
+					return fmt.Sprintf("err %d", j)
+				}
+				pts = append(pts, pt)
+			}
+			return "ok " + hx.HexList(recs) + " " + hx.HexList(pts) + " " + hx.Hex(w.Seq()) + " " + hx.Hex(r.Seq())
+		case "H":
+			// H id isClient vers haveVers seq nextSuite key mackey iv hand wire wants
+			vers := hx.UnHex(f[3])
+			var next uint16
+			if f[6] != "-" {
+				next = suiteID(f[6])
+			}
+			var wants []uint8
+			for _, w := range hx.UnInts(f[12]) {
+				wants = append(wants, uint8(w))
+			}
+			failed, hand, seq, switched, written := gmtls.VerifReadRecords(f[2] == "1", uint16(vers[0])<<8|uint16(vers[1]), f[4] == "1",
+				hx.UnHex(f[5]), next, hx.UnHex(f[7]), hx.UnHex(f[8]), hx.UnHex(f[9]), hx.UnHex(f[10]), hx.UnHex(f[11]), wants)
+			// the alerts written (unprotected records of type 21): their descriptions, in order
+			var descs []byte
+			for b := written; len(b) >= 7; {
+				n := 5 + (int(b[3])<<8 | int(b[4]))
+				if n > len(b) {
+					break
+				}
+				if b[0] == 21 && n == 7 {
+					descs = append(descs, b[6])
+				}
+				b = b[n:]
+			}
+			sw := 0
+			if switched {
+				sw = 1
+			}
+			return fmt.Sprintf("ok %d %s %s %d %s", failed, hx.Hex(hand), hx.Hex(seq), sw, hx.Hex(descs))
 		}
 		return "BADCASE"
 	})
@@ -153,6 +207,13 @@ func handGCM(key, fixed, seq []byte, typ byte, ver uint16, explicit, data []byte
 }
 
 // ---------------------------------------------------------------------------------------------
+func b2i(b bool) int {
+	if b {
+		return 1
+	}
+	return 0
+}
+
 type keyset struct{ key, mac, iv []byte }
 
 func newKS(r *hx.Rng, suite string) keyset {
@@ -425,6 +486,114 @@ func generate(seed uint64, tier string, o *hx.Out) *gen {
 			rec2 := g.mkRecord(suite, k2, seq, 23, ver, eiv, data)
 			g.emitD(suite, k, seq, rec2, "mutant", nil)
 			g.emitD(suite, k2, seq, rec, "mutant", nil)
+		}
+	}
+
+	// (f) stateful pairs: several records through one write / one read half connection, GMSSL and TLS 1.0
+	// (TLS 1.0 CBC: no explicit IV, the IV is the last ciphertext block of the previous record)
+	g.group = "f"
+	for rep := 0; rep < 12*mult; rep++ {
+		for _, suite := range suites {
+			for _, ver := range []uint16{0x0101, 0x0301} {
+				k := newKS(r, suite)
+				seq := u64(niceSeqs[r.Intn(4)])
+				nrec := 2 + r.Intn(4)
+				var items []string
+				s := binary.BigEndian.Uint64(seq)
+				for j := 0; j < nrec; j++ {
+					var eiv []byte
+					switch {
+					case suite == "gcm":
+						eiv = u64(s + uint64(j))
+					case ver == 0x0101:
+						eiv = r.Bytes(16)
+					}
+					data := r.Bytes(r.Pick([]int{0, 1, 15, 16, 17, 40, 100, 300}))
+					items = append(items, fmt.Sprintf("%d:%s:%s", []int{23, 23, 22, 21}[r.Intn(4)], hx.Hex(eiv), hx.Hex(data)))
+				}
+				g.emit(fmt.Sprintf("M %d %s %04x %s %s %s %s %s", g.next(), suite, ver, hx.Hex(k.key), hx.Hex(k.mac), hx.Hex(k.iv),
+					hx.Hex(seq), strings.Join(items, ",")))
+			}
+		}
+	}
+
+	// (g) readRecord during the handshake: ChangeCipherSpec, pending handshake bytes, record types, versions
+	g.group = "g"
+	plain := func(typ byte, ver uint16, data []byte) []byte { return append(hdr(typ, ver, len(data)), data...) }
+	ccs := plain(20, 0x0101, []byte{1})
+	finished := func() []byte { return append([]byte{20, 0, 0, 12}, r.Bytes(12)...) }
+	for rep := 0; rep < 6*mult; rep++ {
+		for _, suite := range suites {
+			k := newKS(r, suite)
+			enc := func(seq uint64, typ byte, data []byte) []byte {
+				w := gmtls.VerifNewHalfConn(suiteID(suite), k.key, k.mac, k.iv, false, u64(seq))
+				rec := hdr(typ, 0x0101, len(data))
+				eiv := eivFor(r, suite, u64(seq))
+				rec = append(append(rec, eiv...), data...)
+				return w.Encrypt(rec, len(eiv))
+			}
+			H := func(isClient bool, vers uint16, haveVers bool, seq uint64, next bool, hand, wire []byte, wants []int) {
+				ns, kk, km, ki := "-", "-", "-", "-"
+				if next {
+					ns, kk, km, ki = suite, hx.Hex(k.key), hx.Hex(k.mac), hx.Hex(k.iv)
+				}
+				g.emit(fmt.Sprintf("H %d %d %04x %d %s %s %s %s %s %s %s %s", g.next(), b2i(isClient), vers, b2i(haveVers), hx.Hex(u64(seq)),
+					ns, kk, km, ki, hx.Hex(hand), hx.Hex(wire), hx.Ints(wants)))
+			}
+			cat := func(parts ...[]byte) []byte { return bytes.Join(parts, nil) }
+			fin := finished()
+			hs1 := r.Bytes(1 + r.Intn(60))
+			cl := r.Bool()
+			seq0 := uint64(r.Pick([]int{0, 1, 5, 70000}))
+			// regular: CCS accepted, sequence number reset, next record read under the new keys
+			H(cl, 0x0101, true, seq0, true, nil, cat(ccs, enc(0, 22, fin)), []int{20, 22})
+			H(cl, 0x0101, true, seq0, true, nil, cat(ccs, enc(0, 22, fin), enc(1, 22, hs1)), []int{20, 22, 22})
+			// handshake bytes still waiting when the CCS arrives: a whole message, a partial one, one byte
+			H(cl, 0x0101, true, seq0, true, fin, cat(ccs, enc(0, 22, fin)), []int{20, 22})
+			H(cl, 0x0101, true, seq0, true, fin[:3+r.Intn(10)], cat(ccs, enc(0, 22, fin)), []int{20, 22})
+			H(cl, 0x0101, true, seq0, true, cat(fin, finished()), cat(ccs, enc(0, 22, fin)), []int{20, 22})
+			H(cl, 0x0101, true, seq0, true, nil, cat(plain(22, 0x0101, fin), ccs, enc(0, 22, fin)), []int{22, 20, 22})
+			// nothing prepared
+			H(cl, 0x0101, true, seq0, false, nil, cat(ccs, plain(22, 0x0101, fin)), []int{20, 22})
+			// malformed CCS
+			H(cl, 0x0101, true, seq0, true, nil, cat(plain(20, 0x0101, []byte{1, 1}), enc(0, 22, fin)), []int{20, 22})
+			H(cl, 0x0101, true, seq0, true, nil, cat(plain(20, 0x0101, []byte{2}), enc(0, 22, fin)), []int{20, 22})
+			H(cl, 0x0101, true, seq0, true, nil, cat(plain(20, 0x0101, nil), enc(0, 22, fin)), []int{20, 22})
+			// type / want mismatches
+			H(cl, 0x0101, true, seq0, true, nil, cat(ccs, enc(0, 22, fin)), []int{22, 22})
+			H(cl, 0x0101, true, seq0, true, nil, cat(plain(22, 0x0101, hs1), ccs), []int{20, 20})
+			H(cl, 0x0101, true, seq0, true, nil, cat(plain(23, 0x0101, hs1), ccs), []int{r.Pick([]int{20, 22}), 20})
+			H(cl, 0x0101, true, seq0, true, nil, cat(plain(byte(r.Pick([]int{0, 19, 24, 99, 255})), 0x0101, hs1), ccs), []int{22, 20})
+			H(cl, 0x0101, true, seq0, true, nil, cat(plain(22, 0x0101, hs1), ccs), []int{r.Pick([]int{23, 21, 0, 99}), 20})
+			// handshake records accumulate in c.hand
+			H(cl, 0x0101, true, seq0, true, hs1[:1], cat(plain(22, 0x0101, hs1), plain(22, 0x0101, nil), plain(22, 0x0101, fin)), []int{22, 22, 22})
+			// versions; first record checks
+			H(cl, 0x0101, true, seq0, true, nil, cat(plain(22, uint16(r.Pick([]int{0x0301, 0x0303, 0x0100, 0x0102, 0})), hs1), ccs), []int{22, 20})
+			H(cl, 0x0101, false, seq0, true, nil, cat(plain(22, uint16(r.Pick([]int{0x0301, 0x0303, 0x0fff, 0x1000, 0x8000})), hs1), ccs), []int{22, 20})
+			H(cl, 0x0101, false, seq0, true, nil, cat(plain(byte(r.Pick([]int{20, 21, 23, 99})), 0x0101, []byte{1, 10}), ccs), []int{22, 20})
+			H(cl, 0x0101, r.Bool(), seq0, true, nil, cat([]byte{0x80, byte(r.Intn(256)), 1, 0, 2}, hs1), []int{r.Pick([]int{22, 20})})
+			// alerts: warnings are skipped (at most 5 in a row), close_notify, fatal, malformed
+			nw := r.Pick([]int{1, 2, 5, 6, 7})
+			var warns []byte
+			for j := 0; j < nw; j++ {
+				warns = append(warns, plain(21, 0x0101, []byte{1, byte(1 + r.Intn(120))})...)
+			}
+			H(cl, 0x0101, true, seq0, true, nil, cat(warns, ccs, enc(0, 22, fin)), []int{20, 22})
+			H(cl, 0x0101, true, seq0, true, nil, cat(warns[:7], plain(22, 0x0101, hs1), warns, plain(22, 0x0101, hs1)), []int{22, 22})
+			H(cl, 0x0101, true, seq0, true, nil, cat(plain(21, 0x0101, []byte{byte(r.Pick([]int{1, 2})), 0}), ccs), []int{20})
+			H(cl, 0x0101, true, seq0, true, nil, cat(plain(21, 0x0101, []byte{2, byte(1 + r.Intn(120))}), ccs), []int{20})
+			H(cl, 0x0101, true, seq0, true, nil, cat(plain(21, 0x0101, []byte{byte(r.Pick([]int{0, 3, 255})), 40}), ccs), []int{22})
+			H(cl, 0x0101, true, seq0, true, nil, cat(plain(21, 0x0101, r.Bytes(r.Pick([]int{0, 1, 3}))), ccs), []int{22})
+			// after the CCS: wrong sequence number, corrupted record, unprotected record
+			H(cl, 0x0101, true, seq0, true, nil, cat(ccs, enc(1, 22, fin)), []int{20, 22})
+			bad := enc(0, 22, fin)
+			bad[len(bad)-1-r.Intn(len(bad)-5)] ^= byte(1 + r.Intn(255))
+			H(cl, 0x0101, true, seq0, true, nil, cat(ccs, bad), []int{20, 22})
+			H(cl, 0x0101, true, seq0, true, nil, cat(ccs, plain(22, 0x0101, fin)), []int{20, 22})
+			// length field: oversized, truncated stream
+			H(cl, 0x0101, true, seq0, true, nil, cat([]byte{22, 1, 1, 0x48, byte(1 + r.Intn(255))}, hs1), []int{22})
+			trunc := cat(plain(22, 0x0101, hs1), ccs)
+			H(cl, 0x0101, true, seq0, true, nil, trunc[:r.Intn(len(trunc))], []int{22, 20})
 		}
 	}
 
